@@ -39,6 +39,8 @@ def program_features(program):
             feats.add("kind:" + f["kind"])
             if f.get("async"):
                 feats.add("async")
+            if f.get("extends") is not None:
+                feats.add("inherited-property-extended")
     return feats
 
 
